@@ -178,6 +178,12 @@ def boundary_strings():
     for d in (4299, 4300, 4301):
         out += ['%' + '1' * d + 'd', '%.' + '0' * d + 'd', '%' + '0' * (d - 1) + '1$d', '%*' + '0' * (d - 1) + '1$d %2$d',
                 '%1$.*' + '0' * (d - 1) + '2$d', 'x' + '9' * d + ' %d', '%' + '0' * d + 'd', '%!' + '1' * d, '%lls%' + '1' * d + 'd']
+    # every spelling of an inttypes-style macro around the real ones: prefix x size, with and without a flag / index
+    for c in 'diouxXsc':
+        for k in ('', 'LEAST', 'FAST', 'least', 'LEASTFAST', 'MAX', 'PTR'):
+            for b in ('', '8', '16', '32', '64', '128', '24', 'MAX', 'PTR', '8MAX', 'MAX8', '064', '6 4'):
+                m = '<PRI%s%s%s>' % (c, k, b)
+                out += ['%' + m, '%1$' + m + ' %2$s', '%0' + m, '%#' + m, "%'" + m, '%-5' + m, '%.3' + m, '%*' + m]
     out += ['', '%', '%%', '%%%', 'a', '%d', '%\n', '\n%d\n', '%1$', '%1$$d', '%$d', '%*$d', '%**d', '%..d', '%.-1d', '%-.d', '%1$-d', '%-1$d',
             '%hhhd', '%lld', '%llld', '%lL', '%Lld', '%hld', '%<PRId32>', '%<PRId32', '%<PRI32>', '%<PRId128>', '%<PRIdLEAST>', '%<PRIdFAST8>',
             '%<PRIsMAX>', '%l<PRId32>', '%5<PRId32>', '%-#0.3<PRIxPTR>', '%1$<PRIu8>', '%<pRId8>', '%<PRIdMAX>%<PRIdPTR>', '%<PRId8 >',
